@@ -8,9 +8,9 @@ import tempfile
 from lib.coqterm import cN, cbool, cbytes, clist, copt, cpair
 
 ID = "C20"
-QUICK_N = 2600
+QUICK_N = 2000
 THOROUGH_N = 36000
-SHARD = 200
+SHARD = 250
 COQ_PRELUDE = "From MV Require Import Model.ProxyAuth.\n"
 RULE = ("18% binascii.a2b_base64 / b2a_base64 inputs over a dictionary of alphabet runs, pads in every position, junk and "
         "url-safe characters; 8% bytes.decode(utf-8) with the three error handlers over valid/overlong/surrogate/truncated "
@@ -658,7 +658,7 @@ def oracle_addon(case, obs):
         exp = _expect(v, ev["label"])
         passed = o["resp"] is None
         if authd.get(c) is True or ev["replay"]:
-            if not passed and authd.get(c) is True:
+            if not passed and authd.get(c) is True and not ev["connect"]:
                 out.append({"key": "authenticated-connection-challenged", "what": f"event {i}: request on an authenticated connection got {o['resp']}"})
         elif c in authd:
             pass
@@ -731,7 +731,7 @@ def oracle_e2e(case, obs):
             if forwarded or o["opened"]:
                 out.append({"key": "forwarded-unauthenticated", "what": f"step {i}: {st['label']} reached the server side: {bytes.fromhex(o['to_server'])[:80]!r}"})
             elif o["crash"]:
-                key = "no-auth-answer-streamed-body" if case.get("opts", {}).get("stream_large_bodies") and st["body"] else "no-auth-answer-crash"
+                key = "stream-large-bodies-no-answer" if case.get("opts", {}).get("stream_large_bodies") and st["body"] else "no-auth-answer-crash"
                 out.append({"key": key, "what": f"step {i}: unauthenticated request with a streamed body: layer raised {o['crash']}, client got no {want}"})
             elif o["status"] != want or o["challenge"] != [ch]:
                 out.append({"key": "wrong-challenge", "what": f"step {i}: answer {o['status']} {o['challenge']}, wanted {want} {ch}"})
